@@ -43,17 +43,17 @@ type FuncContract struct {
 	used              bool
 	opts              map[string]string
 	asserts           []midAssert
-	implOf            *types.Signature // interface method signature (implementation units)
-	laws              []string         // table blocks: algebraic laws over the entries
+	implOf            *types.Signature    // interface method signature (implementation units)
+	laws              []string            // table blocks: algebraic laws over the entries
 	lawProps          map[string][]string // law -> property ids (default: the block's)
-	variants          map[int]clause   // loop ordinal -> decreases expression
-	ghostStmts        []ghostStmt      // ghost assignments executed after an anchored call
-	closureSpecs      []closureSpec    // function literals created by the function: verified at their creation site
-	ghostReturn       []ghostStmt      // ghost assignments executed at every return of the function
-	assertsAfter      []midAssert      // assertions checked right after an anchored call
-	chanValue, chanOK clause           // channel blocks: received value / ok flag
-	chanEffects       []ghostStmt      // channel blocks: ghost updates on a successful receive
-	pureParams        map[string]bool  // function-typed parameters / captured variables that are pure functions of their arguments
+	variants          map[int]clause      // loop ordinal -> decreases expression
+	ghostStmts        []ghostStmt         // ghost assignments executed after an anchored call
+	closureSpecs      []closureSpec       // function literals created by the function: verified at their creation site
+	ghostReturn       []ghostStmt         // ghost assignments executed at every return of the function
+	assertsAfter      []midAssert         // assertions checked right after an anchored call
+	chanValue, chanOK clause              // channel blocks: received value / ok flag
+	chanEffects       []ghostStmt         // channel blocks: ghost updates on a successful receive
+	pureParams        map[string]bool     // function-typed parameters / captured variables that are pure functions of their arguments
 	implIface         types.Type
 }
 
@@ -66,7 +66,7 @@ type closureSpec struct {
 	attrs    []ghostStmt
 	assumes  []clause // facts about captured, configuration-like state that still hold when the literal is invoked (assumed)
 	text     string
-	trusted  bool // the attributes are assumed, the body is not verified (listed as an assumption)
+	trusted  bool     // the attributes are assumed, the body is not verified (listed as an assumption)
 	returns  []clause // extra postconditions of this literal (over its parameters, results and the captured variables)
 	when     []clause // proved where the literal is created: the literal is created only in states satisfying E
 }
@@ -532,9 +532,16 @@ func (cs *ContractSet) parseFile(pkgPath, filename string, lines []string, lineN
 			}
 			rest = strings.TrimSpace(rest)
 			label := ""
+			var aprops []string
 			if strings.HasPrefix(rest, "[") {
 				j := strings.Index(rest, "]")
-				label = strings.TrimSpace(rest[1:j])
+				for _, w := range strings.Fields(strings.ReplaceAll(rest[1:j], ",", " ")) {
+					if regexp.MustCompile(`^C\d+$`).MatchString(w) {
+						aprops = append(aprops, w)
+					} else {
+						label = w
+					}
+				}
 				rest = strings.TrimSpace(rest[j+1:])
 			}
 			m := regexp.MustCompile(`^("(?:[^"\\]|\\.)*")\s+(.*)$`).FindStringSubmatch(rest)
@@ -552,9 +559,9 @@ func (cs *ContractSet) parseFile(pkgPath, filename string, lines []string, lineN
 				label = fmt.Sprintf("assert%d", len(cur.asserts)+1)
 			}
 			if word == "assert-after" {
-				cur.assertsAfter = append(cur.assertsAfter, midAssert{anchor: anchor, cl: clause{kind: "assert", text: m[2], expr: ex, line: where, label: label}})
+				cur.assertsAfter = append(cur.assertsAfter, midAssert{anchor: anchor, cl: clause{kind: "assert", text: m[2], expr: ex, line: where, label: label, props: aprops}})
 			} else {
-				cur.asserts = append(cur.asserts, midAssert{anchor: anchor, cl: clause{kind: "assert", text: m[2], expr: ex, line: where, label: label}})
+				cur.asserts = append(cur.asserts, midAssert{anchor: anchor, cl: clause{kind: "assert", text: m[2], expr: ex, line: where, label: label, props: aprops}})
 			}
 		case "requires", "ensures", "decreases", "assigns", "invariant", "loop", "rely":
 			if cur == nil {
